@@ -188,7 +188,13 @@ func runCase(t *testing.T, transport, op, point, cause string) (line string) {
 			synctest.Wait()
 		}()
 		var cbA, cbB atomic.Int32
-		w.cc.AddOnClose(func() { cbA.Add(1) })
+		// the first callback registers two more while the shutdown walks its list: the callbacks registered before the
+		// close must still run exactly once each (whether the late ones run is not demanded)
+		w.cc.AddOnClose(func() {
+			cbA.Add(1)
+			w.cc.AddOnClose(func() {})
+			w.cc.AddOnClose(func() {})
+		})
 		w.cc.AddOnClose(func() { cbB.Add(1) })
 
 		baseCtx, baseCancel := context.WithCancel(context.Background())
@@ -510,7 +516,13 @@ func runQueueFull(t *testing.T, transport, cause string) (line string) {
 			tp.TakeFrames()
 		}
 		var cbA, cbB atomic.Int32
-		cc.AddOnClose(func() { cbA.Add(1) })
+		// the first callback registers two more while the shutdown walks its list: the callbacks registered before the
+		// close must still run exactly once each (whether the late ones run is not demanded)
+		cc.AddOnClose(func() {
+			cbA.Add(1)
+			cc.AddOnClose(func() {})
+			cc.AddOnClose(func() {})
+		})
 		cc.AddOnClose(func() { cbB.Add(1) })
 		// the peer's burst: more requests than the queue holds
 		var pw sync.WaitGroup
@@ -600,7 +612,13 @@ func runStalled(op, cause string) (line string) {
 	time.Sleep(settle)
 	peer.TakeFrames()
 	var cbA, cbB atomic.Int32
-	cc.AddOnClose(func() { cbA.Add(1) })
+	// the first callback registers two more while the shutdown walks its list: the callbacks registered before the
+	// close must still run exactly once each (whether the late ones run is not demanded)
+	cc.AddOnClose(func() {
+		cbA.Add(1)
+		cc.AddOnClose(func() {})
+		cc.AddOnClose(func() {})
+	})
 	cc.AddOnClose(func() { cbB.Add(1) })
 	baseCtx, baseCancel := context.WithCancel(context.Background())
 	defer baseCancel()
@@ -762,6 +780,12 @@ func TestC09(t *testing.T) {
 			} else if f[2] == "srvstop" {
 				ks := strings.TrimPrefix(f[3], "k")
 				slow := strings.HasSuffix(ks, "s")
+				if strings.HasSuffix(ks, "x") && f[1] == "udp" {
+					kx, _ := strconv.Atoi(strings.TrimSuffix(ks, "x"))
+					fmt.Fprintln(w, runServerCtxStop(kx))
+					lp.PoolTraceEnd("c09 " + strings.Join(f[1:], " "))
+					return
+				}
 				appClose := strings.HasSuffix(ks, "c")
 				sweepBusy := strings.HasSuffix(ks, "i") && f[1] == "udp"
 				k, _ := strconv.Atoi(strings.TrimRight(ks, "sci"))
